@@ -645,7 +645,7 @@ CONSTANTS
 DEFAULTS = dict(Limit=1, TOtotal=0, TOconnect=0, TOsockc=0, TOread=0, Thr=4, Offset=1, Horizon=14,
                 Body="none", Expect100=False, AllowCancel=True, AllowPause=False, MaxPartial=1, BigChunk=False,
                 ShieldDns=True, CloseOnFail=True, CancelWriter=True, RearmOnResume=True, Handoff=True,
-                TimerCoversBody=True, NestedUncancel=True, RearmChecksEof=False, Scripted=False, StallsTotal=[], StallsConnect=[],
+                TimerCoversBody=True, NestedUncancel=False, RearmChecksEof=True, Scripted=False, StallsTotal=[], StallsConnect=[],
                 StallsSockc=[], StallsRead=[], MaxCancelAt=0,
                 Orders=["vb"])
 INVARIANTS = ["Bounded", "TimeoutClass", "CancelPropagates", "NoResidue", "BystanderUnharmed",
@@ -1025,6 +1025,7 @@ def free_models(ctx: Ctx) -> List[tuple]:
     """(name, constants, as-coded invariants, also-check-the-repaired-design)"""
     no_su = [i for i in AS_CODED_INV if i != "SessionUsable"]
     ms_ = [
+        ("total<thr L1", dict(TOtotal=3), AS_CODED_INV, True),
         ("all four kinds L2", dict(TOtotal=6, TOconnect=5, TOsockc=3, TOread=2, Limit=2), AS_CODED_INV, False),
         ("total + sock_read + big chunk (read pause/resume)", dict(TOtotal=6, TOread=3, BigChunk=True), no_su, True),
         ("total>=thr + blocked writer", dict(TOtotal=5, Body="block", AllowPause=True), AS_CODED_INV, False),
@@ -1032,7 +1033,6 @@ def free_models(ctx: Ctx) -> List[tuple]:
     ]
     if not ctx.quick:
         ms_ += [
-            ("total<thr L1", dict(TOtotal=3), AS_CODED_INV, True),
             ("connect>thr L1 offset 0", dict(TOconnect=5, Offset=0), AS_CODED_INV, False),
             ("sock_connect L2", dict(TOsockc=3, Limit=2), AS_CODED_INV, False),
             ("total + sock_read, 2 partial deliveries, L2", dict(TOtotal=7, TOread=3, MaxPartial=2, Limit=2, Horizon=16),
@@ -1111,7 +1111,7 @@ def run(ctx: Ctx) -> None:
         mc = dict(DEFAULTS)
         mc.update(kw)
         paths, res = scenario_paths(write_cfg("scr", invariants=[], **mc), timeout=ctx.pick(600, 3000),
-                                    per_init=ctx.pick(2, 4))
+                                    per_init=ctx.pick(3, 4))
         ctx.add_model(f"ClientTimeouts[scripted scenarios]({name})", res, exhaustive=True)
         scns = {json.dumps(p["scn"], sort_keys=True) for p in paths}
         nscn += len(scns)
@@ -1121,7 +1121,7 @@ def run(ctx: Ctx) -> None:
             has_cut = any(("partial" in l or '"data"' in l) for l in labels)
             variants = [(0, 0)]
             if has_cut:
-                variants += [(c, 0) for c in ctx.pick((3, 6), (1, 3, 4, 6))]
+                variants += [(c, 0) for c in ctx.pick((1, 3, 4, 6), (1, 2, 3, 4, 5, 6))]
             if mc["Body"] == "block":
                 variants += [(0, 1)]
             for (cut, bv) in variants:
@@ -1144,7 +1144,7 @@ def run(ctx: Ctx) -> None:
         mc = dict(DEFAULTS)
         mc.update(kw)
         behs, _ = simulate_behaviours("ClientTimeouts", write_cfg("sim", invariants=[], **mc),
-                                      num=ctx.pick(40, 600), depth=40, seed=ctx.seed, timeout=600)
+                                      num=ctx.pick(60, 600), depth=40, seed=ctx.seed, timeout=600)
         for k, b in enumerate(behs):
             sims.append(replay_path(ctx, loop, path_from_behaviour(b), mc, cutsel=k % 7, body_variant=k % 2,
                                     src="tlc-sim"))
@@ -1154,7 +1154,7 @@ def run(ctx: Ctx) -> None:
         judge(ctx, sims[i:i + 1500], "tlc-sim")
     # ---- 4. random fault schedules
     batch: List[dict] = []
-    for _ in range(ctx.pick(600, 8000)):
+    for _ in range(ctx.pick(1200, 8000)):
         batch.append(random_exec(ctx, loop, ctx.rng))
         if len(batch) >= 1500:
             judge(ctx, batch, "random")
